@@ -46,7 +46,14 @@ class Interp(LibMixin, CallMixin, StmtMixin, ExprMixin, InterpBase):
         if p.kind == "val":
             return ctx.fresh(name, Val)
         base = None
-        if p.kind == "obj":
+        if p.kind == "fresh":
+            cid = t.ids[p.cls] if p.cls in t.ids else self.index.find_class(p.cls).cid
+            base = VRef(st.alloc(cid))
+            if p.cls in ("list", "tuple", "deque"):
+                ctx.assume(z3.Select(st.llen, Val.r(base)) >= 0)
+            if p.cls in ("dict", "OrderedDict"):
+                ctx.assume(z3.Select(st.dlen, Val.r(base)) >= 0)
+        elif p.kind == "obj":
             r = self.fresh_ref(name)
             base = VRef(r)
             ci = self.index.find_class(p.cls) if p.cls not in t.ids else None
@@ -88,6 +95,7 @@ class Interp(LibMixin, CallMixin, StmtMixin, ExprMixin, InterpBase):
             raise Unsupported("param kind %s" % p.kind)
         if p.nullable:
             isnone = ctx.fresh(name + "_isnone", B)
+            self._last_nullable = (isnone, base)
             return z3.If(isnone, VNone, base)
         return base
 
@@ -201,6 +209,11 @@ class Interp(LibMixin, CallMixin, StmtMixin, ExprMixin, InterpBase):
             S_.result = res
             for cl in c.ensures:
                 self.ctx.assume(cl.fn(S_))
+            if getattr(c.result, "kind", None) == "fresh" and c.result.nullable:
+                # decide None / object now (after the postcondition): the result stays a concrete reference
+                isnone, base = self._last_nullable
+                res = VNone if self.ctx.branch(isnone, "fresh result is None") else base
+                S_.result = res
             if c.logged:
                 self.st.log.append(LogEntry(c.logged, [bound[n] for n in _param_order(fi)], {}, res, anchor))
             return res
@@ -363,6 +376,7 @@ def verify_contract(index, table, contracts, c, axioms, timeout_ms=10000, max_pa
         res.status = "error"
         res.reason = "z3: %s" % z
     res.paths = ex.n_paths
+    res.notes = ex.notes
     res.solver_time = ex.solver_time
     for name, o in ex.obligations.items():
         o["props"] = sorted(prop_of.get(name, set(c.props)))
